@@ -464,6 +464,10 @@ func (s *Sim) onBrokerClosed(sl *Slot) {
 		// an unexpected close is not by itself a violation (C07 allows "closes the connection"),
 		// but the model must follow: the connection ended without normal DISCONNECT.
 		s.connectionEnded(sl, "broker-close", true)
+	} else {
+		// the operation allowed the broker to close (e.g. a refused alias): if it did, the connection has ended
+		// abnormally (no-op when the operation already modelled the end)
+		s.connectionEndedModel(sl, "broker-close-allowed", false)
 	}
 	sl.ExpectClose = false
 }
